@@ -165,3 +165,54 @@ example :
   decide
 
 end MysticVerif.Reconfig
+
+/-! ### Nelder-Mead: what a re-decoration under strict ranges does to the simplex (known finding F20) -/
+
+namespace MysticVerif.Reconfig
+open MysticVerif.Solver
+
+variable {R E : Type}
+
+/-- the energies are kept, position by position, whatever happens to the vertices -/
+theorem nm_redecorate_keeps_energies (clip0 mkVal : Pt R → Pt R) (zero : R) (k : Nat) (sx : List (Pt R × E)) :
+    (NM.redecorate clip0 mkVal zero k sx).map Prod.snd = sx.map Prod.snd := by
+  unfold NM.redecorate
+  cases sx with
+  | nil => rfl
+  | cons p tl =>
+    obtain ⟨x0', f0⟩ := p
+    simp only
+    split
+    · rfl
+    · simp only [List.map_cons, List.map_map, List.cons.injEq, true_and]
+      have : ∀ (l : List (Pt R × E)) (n : Nat),
+          List.map (Prod.snd ∘ fun p : (Pt R × E) × Nat => ((clip0 x0').set p.2 ((mkVal (clip0 x0')).getD p.2 zero), p.1.2)) (l.zipIdx n)
+            = l.map Prod.snd := by
+        intro l
+        induction l with
+        | nil => intro n; rfl
+        | cons a l ih =>
+          intro n
+          rw [List.zipIdx_cons, List.map_cons, List.map_cons, ih (n + 1)]
+          rfl
+      exact this tl 0
+
+/-- the best vertex is only clipped into the box; if it already lies inside it (`clip0` leaves it alone) it survives -/
+theorem nm_redecorate_head (clip0 mkVal : Pt R → Pt R) (zero : R) (k : Nat) (x0 : Pt R) (f0 : E) (tl : List (Pt R × E)) :
+    (NM.redecorate clip0 mkVal zero k ((x0, f0) :: tl)).head? = some (clip0 x0, f0) := by
+  unfold NM.redecorate
+  simp only
+  split <;> rfl
+
+/-- **F20, kernel-checked**: after generation 1 a re-decoration replaces every other vertex and keeps its energy - the
+member `([5, 9], 106)` of a simplex whose energies are `x² + y²` becomes `([6, 0], 106)`: it no longer carries its own
+energy (`6² + 0² = 36`) -/
+theorem nm_redecoration_breaks_member_energy_witness :
+    let cost : Pt Int → Int := fun x => (x.getD 0 0) * (x.getD 0 0) + (x.getD 1 0) * (x.getD 1 0)
+    let sx : List (Pt Int × Int) := [([5, 0], 25), ([5, 9], 106), ([7, 0], 49)]
+    (∀ p ∈ sx, p.2 = cost p.1) ∧
+    NM.redecorate (fun x => x) (fun x => x.map (· + 1)) 0 2 sx = [([5, 0], 25), ([6, 0], 106), ([5, 1], 49)] ∧
+    ¬ (∀ p ∈ NM.redecorate (fun x => x) (fun x => x.map (· + 1)) 0 2 sx, p.2 = cost p.1) := by
+  decide
+
+end MysticVerif.Reconfig
